@@ -118,3 +118,14 @@ func replayScalar(repo string, fn *ssa.Function, ob *vc.Obligation) string {
 	}
 	return fmt.Sprintf("candidate %s did not panic on the real code", call)
 }
+
+// runGoTest runs one injected test of a repo package with the sandbox's offline Go settings.
+func runGoTest(dir, overlay, run string, timeoutSec int) (string, error) {
+	ctx, cancel := context.WithTimeout(context.Background(), time.Duration(timeoutSec+100)*time.Second)
+	defer cancel()
+	cmd := exec.CommandContext(ctx, "go", "test", "-overlay", overlay, "-vet=off", "-count=1", "-timeout", fmt.Sprintf("%ds", timeoutSec), "-run", run, ".")
+	cmd.Dir = dir
+	cmd.Env = append(os.Environ(), "GOFLAGS=-mod=mod", "GOPROXY=off", "GOSUMDB=off", "GOTOOLCHAIN=local")
+	out, err := cmd.CombinedOutput()
+	return string(out), err
+}
